@@ -767,6 +767,10 @@ pub fn judge(inv: &mut Inv, prev_clean: Option<&BTreeSet<usize>>, prev_failed: &
                     if why.contains("discovered") || why.contains("missing") {
                         push(&mut v, "C09", "skipped-dirty-step", msg.clone());
                     }
+                    if why.contains("outputs differ") || why.contains("no applicable record") {
+                        // a record was used although it does not describe the step's present output set
+                        push(&mut v, "C08", "skipped-dirty-step", msg.clone());
+                    }
                     if sh.reloaded {
                         push(&mut v, "C17", "skipped-dirty-step", msg.clone());
                     }
